@@ -1,8 +1,22 @@
 package sim
 
-import "testing"
+import (
+	"syscall"
+	"testing"
+)
 
 func TestVerif(t *testing.T) {
+	// A run whose library code allocates in an endless loop must end as a crash of its own process
+	// ("out of memory", with the library on the stack), not as a machine that swaps: the sandbox sets
+	// no memory limit of its own.
+	lim := syscall.Rlimit{Cur: 24 << 30, Max: 24 << 30}
+	var old syscall.Rlimit
+	if syscall.Getrlimit(syscall.RLIMIT_AS, &old) == nil && old.Cur > lim.Cur {
+		if old.Max < lim.Max {
+			lim.Max = old.Max
+		}
+		syscall.Setrlimit(syscall.RLIMIT_AS, &lim)
+	}
 	switch *fMode {
 	case "":
 		t.Skip("no -verif.mode")
